@@ -51,7 +51,9 @@ def rich_spec(m=0, perm=None):
     add("a", 0x61, anchors=[("top", 250 + d, 500), ("bottom", 250, -10), ("ogonek", 400, 0), ("ring", 250, 520),
                             ("entry", 0, 0), ("exit", 500 + d, 0)])
     add("b", 0x62, anchors=[("top", 260, 700 + d), ("bottom", 260, -10), ("entry", 0, 5), ("exit", 510, 0)])
-    add("o", 0x6F, anchors=[("top", 250, 500), ("ring", 250, 500)])
+    # 'o' carries a contextual anchor: its context lives in public.objectLibs under the anchor's identifier
+    add("o", 0x6F, anchors=[("top", 250, 500), ("ring", 250, 500), ("*top", 300, 640 + d, "ctxTop")])
+    G["o"]["lib"] = {"public.objectLibs": {"ctxTop": {"GPOS_Context": "b *"}}}
     add("A-cy", 0x410, anchors=[("top", 300, 700)])
     add("Be-cy", 0x411, anchors=[("top", 310, 700)])
     add("alpha", 0x3B1, anchors=[("top", 255, 500)])
@@ -158,7 +160,7 @@ def math_spec():
     s = rich_spec()
     s["lib"]["com.nagwa.MATHPlugin.constants"] = {"ScriptPercentScaleDown": 70, "MinConnectorOverlap": 20}
     s["lib"]["com.nagwa.MATHPlugin.extendedShape"] = ["o"]
-    s["glyphs"]["o"]["lib"] = {"com.nagwa.MATHPlugin.variants": {"vVariants": ["o", "b"]}}
+    s["glyphs"]["o"].setdefault("lib", {})["com.nagwa.MATHPlugin.variants"] = {"vVariants": ["o", "b"]}
     return s
 
 
